@@ -9,9 +9,9 @@ ASSUMPTIONS = ['"defines link references" is over-approximated syntactically by 
                'parsed with the HtmlRenderer token set (default tokens + HtmlBlock/HtmlSpan)']
 CLOSED = {'Paragraph', 'Heading', 'SetextHeading', 'ThematicBreak', 'Quote', 'Table'}
 BOUNDS = {'quick': (2, 2), 'thorough': (3, 2)}
-L = spaces.LINES + ['<!-- x -->', '> <!-- c', '> ```', '> <?p']
+L = spaces.LINES + ['<!-- x -->', '> <!-- c', '> ```', '> <?p', '<x-y>']
 # B is additionally enumerated to 3 lines over the lines that read or write parser scratch state
-LB3 = ['<div>', '', 'foo', '```', '# h', '> q', '- a', '<!-- x -->', '===']
+LB3 = ['<div>', '', 'foo', '```', '# h', '> q', '- a', '<!-- x -->', '===', '<x-y>']
 
 
 def describe(tier):
